@@ -3,6 +3,7 @@
 import asyncio
 import json
 import logging
+import os
 from os import path
 from pathlib import Path
 
@@ -49,8 +50,14 @@ class FileStorage(AbstractStorage):
         dumped = self.storage_model.dict(exclude_defaults=True)
         dumped["devices"] = [device for device in dumped["devices"] if device != {}]
 
-        with open(self._filename, "w", encoding="utf-8") as _fh:
+        # Write to a temporary file and move it in place, so that a crash while
+        # saving never leaves a truncated or half-written storage file behind.
+        tmp_filename = self._filename + ".tmp"
+        with open(tmp_filename, "w", encoding="utf-8") as _fh:
             _fh.write(json.dumps(dumped) + "\n")
+            _fh.flush()
+            os.fsync(_fh.fileno())
+        os.replace(tmp_filename, self._filename)
 
     async def load(self) -> None:
         """Load settings from active storage."""
